@@ -367,6 +367,12 @@ func (e *Env) eval(x Expr) *CV {
 		}
 		return cvBool(Exists(bs, body))
 	case *ESel:
+		if id, ok := x.X.(*EIdent); ok && e.lookup(id.Name) == nil {
+			// pkg.Name: a package-level variable or constant of another package
+			if v := e.lookup(id.Name + "." + x.Name); v != nil {
+				return v
+			}
+		}
 		return e.sel(e.eval(x.X), x.Name)
 	case *EIndex:
 		return e.index(e.eval(x.X), e.eval(x.I))
